@@ -1,6 +1,6 @@
 (* C16: the reader's line splitting on the generated pattern \r\n|\r|\n is exactly
    [split_lines], and re-encoding the line terminators does not change the lines. *)
-From Rimu Require Import Base Unicode Regex RegexParse Str Types Tables Guards State Inline Block.
+From Rimu Require Import Base Unicode Regex RegexSem RegexParse Str Types Tables Guards State Inline Block.
 From Coq Require Import Lia.
 
 Definition rx := re_io_Reader___init___0.
@@ -58,26 +58,6 @@ Qed.
 
 Lemma match_at_rx_nil i p : match_at rx i p [] = None.
 Proof. reflexivity. Qed.
-
-(* ---- takeN / dropN over an append ---- *)
-Lemma lenN_app a b : lenN (a ++ b) = lenN a + lenN b.
-Proof. induction a as [|x a IH]; simpl; [reflexivity|]. rewrite IH. lia. Qed.
-
-Lemma takeN_app_exact a b : takeN (lenN a) (a ++ b) = a.
-Proof.
-  induction a as [|x a IH]; simpl.
-  - destruct b; reflexivity.
-  - destruct (N.succ (lenN a) =? 0) eqn:E; [apply N.eqb_eq in E; lia|].
-    rewrite N.pred_succ, IH. reflexivity.
-Qed.
-
-Lemma dropN_app_plus a b k : dropN (lenN a + k) (a ++ b) = dropN k b.
-Proof.
-  induction a as [|x a IH]; simpl.
-  - reflexivity.
-  - destruct (N.succ (lenN a) + k =? 0) eqn:E; [apply N.eqb_eq in E; lia|].
-    replace (N.pred (N.succ (lenN a) + k)) with (lenN a + k) by lia. exact IH.
-Qed.
 
 Definition nlfree (s : str) : Prop := forall c, In c s -> is_nl c = false.
 
